@@ -104,6 +104,8 @@ def check_C13(ctx):
         segs = obs.split(" || ")
         if len(segs) == 2 and fields(segs[0]).get("rel") == "loop" and fields(segs[1]).get("rel") == "loop":
             ctx.known_finding(kf["id"], kf["what"])
+            ctx.coverage["samples"].append({"stream": "path (windows, known finding witness, avfs || toolchain's Windows path/filepath)",
+                                            "case": wit + " => " + obs})
             ctx.coverage["streams"]["path"]["rel_nonterminating_inputs"] = \
                 ctx.coverage["streams"]["path"].get("distribution", {}).get("outcome:rel-loop", 0)
         mm = mm + [(-1, c, m, o) for (_, c, m, o) in mmk]
